@@ -82,6 +82,10 @@ CHECKS.update({
    text="Exhaustive cross product of 31 names (including dot/parent-directory segments and names that contain another database's manifest address) x 3 types x 6 write lists on three peers: address determinism across peers, pairwise inequality over the whole enumerated set, parse round trip, Create == DetermineAddress, Open on another peer yields recorded type and write list, local-only open of unknown and Create over existing refused, overwrite accepted.",
    note="Trusted: sim environment (content-addressed blocks shared between peers). Restricted to inputs Create accepts.",
    tech="exhaustive enumeration of a finite input family against the real implementation with pairwise comparison over the whole set"),
+ "C20": dict(cat="exploration", ref="5/C20",
+   text="The three bundled adapters that can be driven without real network timers are exercised over scripted doubles: every sequence of <= 3/4 membership snapshots (sets in every list order) through the stepped poll loop of pubsubcoreapi; every message sequence of length <= 3 over 3 senders x 3 payload sizes through the topic adapter and the one-on-one monitor; channel-name symmetry and distinctness for all ordered pairs of 5 peers; direct-channel frames for 10 boundary sizes and all 6 interleavings of two senders.",
+   note="Trusted: scripted PubSub API and in-memory host/stream doubles. pubsubraw is not covered (real libp2p pubsub, own timers); oneonone sequences are limited by the adapter's fixed one-second connect wait.",
+   tech="exhaustive enumeration of finite input/snapshot sequences against the real adapters over scripted environment doubles"),
 })
 NOT_APPLICABLE = []
 ALL = ["C%02d" % i for i in range(1, 21)]
